@@ -1025,6 +1025,91 @@ def unit_observers_misc(sess, ctx):
     return u
 
 
+def unit_export(sess, ctx):
+    """AudioDataSaverWorker.export_audio / _encode_export_audio / _export_raw / _export_with_*: what ends up under the
+    requested file name.  wav: the file the worker wrote IS the output (nothing to do); raw: the frames of that wav file are
+    written, once, to the output name; any other format: the external converters (ffmpeg, avconv, sox) are tried on the
+    temporary wav, the first that succeeds ends it; if none does the error names the temporary wav and export_audio turns it
+    into an AudioEncodingWarning; a second export does nothing."""
+    u = Unit("AudioDataSaverWorker.export_audio/_encode_export_audio/_export_raw/_export_with_ffmpeg_or_avconv/_export_with_sox",
+             [QW + "AudioDataSaverWorker." + x for x in ("export_audio", "_encode_export_audio", "_export_raw",
+                                                         "_export_with_ffmpeg_or_avconv", "_export_with_sox", "data")])
+    eng = setup(sess, [QW + "AudioDataSaverWorker." + x for x in ("_encode_export_audio", "_export_raw", "_export_with_ffmpeg_or_avconv",
+                                                                     "_export_with_sox", "data")])
+    fmts = ["wav", "raw", "ogg"]
+    PE = ("C13", "C15")
+
+    def run_(eng):
+        st = eng.st
+        fmt = fmts[eng.choose(3, None, "export format")]
+        already = eng.choose(2, None, "already exported?") == 0
+        out_name, tmp_name = Opq(tag="str"), Opq(tag="str")
+        me, q = worker_obj(eng, "AudioDataSaverWorker", {"_wfp": st.new_obj("IWaveWriter", {})})
+        h = st.heap[me.oid]
+        h.update({"_output_filename": out_name, "_tmp_output_filename": out_name if fmt == "wav" else tmp_name,
+                  "_export_format": fmt, "_exported": already})
+        frames = fresh_seq("bytes", "tmp.frames")
+        io_log = []
+        wr = st.new_obj("WaveObj", {})
+        eng.iface[("WaveObj", "__enter__")] = lambda e, o, a, k: o
+        eng.iface[("WaveObj", "__exit__")] = lambda e, o, a, k: None
+        eng.iface[("WaveObj", "readframes")] = lambda e, o, a, k: io_log.append(("readframes", tuple(a))) or frames
+        eng.lib["wave.open"] = lambda e, a, k: io_log.append(("wave.open", tuple(a))) or wr
+        fo = st.new_obj("FileObj", {})
+        eng.iface[("FileObj", "__enter__")] = lambda e, o, a, k: o
+        eng.iface[("FileObj", "__exit__")] = lambda e, o, a, k: None
+        eng.iface[("FileObj", "write")] = lambda e, o, a, k: io_log.append(("write", tuple(a)))
+        eng.lib["builtin.open"] = lambda e, a, k: io_log.append(("open", tuple(a))) or fo
+        tools = []
+        outcome = {}
+
+        def c_run(e, fi_, sv, a, k):
+            cmd = e.force(a[0])
+            items = list(cmd.items) if isinstance(cmd, Seq) and cmd.items is not None else list(cmd)
+            tool = items[0]
+            tools.append((tool, items))
+            kind = e.choose(3, None, "%s: succeeds / fails (non-zero status) / cannot be run" % tool)
+            outcome[tool] = kind
+            if kind == 2:
+                raise PyRaise("AudioEncodingError", ())
+            return (0 if kind == 0 else 1, Opq(tag="bytes"), Opq(tag="stderr"))
+        eng.contracts[QW + "_run_subprocess"] = c_run
+        raised = None
+        try:
+            res = eng.run_function(ctx.fi(QW + "AudioDataSaverWorker.export_audio"), [], {}, me)
+        except PyRaise as ex:
+            raised = ex
+        if already:
+            eng.prove("C13:export:a-second-export-does-nothing", raised is None and res is out_name and not io_log and not tools, props=PE)
+            return None
+        if fmt == "wav":
+            eng.prove("C13:export:wav-output-is-the-file-the-worker-wrote(nothing-copied-or-converted)",
+                      raised is None and res is out_name and not io_log and not tools and h["_exported"] is True, props=PE)
+            return None
+        if fmt == "raw":
+            ok = raised is None and res is out_name and h["_exported"] is True and not tools and len(io_log) == 4
+            if ok:
+                ok = io_log[0] == ("open", (out_name, "wb")) and io_log[1] == ("wave.open", (tmp_name, "rb")) and io_log[2][0] == "readframes" \
+                    and isinstance(io_log[2][1][0], int) and io_log[2][1][0] < 0 and io_log[3] == ("write", (frames,))
+            eng.prove("C13:export:raw-output-holds-exactly-the-frames-of-the-temporary-wav", ok, props=PE)
+            return None
+        order = [t for t, _ in tools]
+        good = [t for t in order if outcome[t] == 0]
+        eng.prove("C13:export:external-converters-are-tried-until-one-succeeds-and-none-after-it",
+                  len(order) >= 1 and set(order) <= {"ffmpeg", "avconv", "sox"} and len(set(order)) == len(order)
+                  and (not good or good == [order[-1]]), props=PE)
+        okargs = all(tmp_name in [x for x in it] and out_name in [x for x in it] for _, it in tools)
+        eng.prove("C13:export:every-converter-reads-the-temporary-wav-and-writes-the-requested-name", okargs, props=PE)
+        if good:
+            eng.prove("C13:export:success-returns-the-requested-name", raised is None and res is out_name and h["_exported"] is True, props=PE)
+        else:
+            eng.prove("C13:export:when-no-converter-works-the-failure-is-an-AudioEncodingWarning-and-nothing-is-marked-exported",
+                      raised is not None and raised.exc == "AudioEncodingWarning" and h["_exported"] is False, props=PE)
+        return None
+    sess.run_unit(u, eng, run_)
+    return u
+
+
 def unit_saver_init(sess, ctx):
     """AudioDataSaverWorker.__init__/_init_output_stream and StreamSaverWorker.__init__:
     the wave writer gets the reader's rate, width and channels, un-swapped."""
@@ -1169,6 +1254,7 @@ UNITS = {
     "region_saver": lambda sess, ctx, opts: unit_region_saver(sess, ctx),
     "print_worker": lambda sess, ctx, opts: unit_print_worker(sess, ctx),
     "observers_misc": lambda sess, ctx, opts: unit_observers_misc(sess, ctx),
+    "export": lambda sess, ctx, opts: unit_export(sess, ctx),
     "saver_init": lambda sess, ctx, opts: unit_saver_init(sess, ctx),
     "split_and_join": lambda sess, ctx, opts: unit_split_and_join(sess, ctx),
     "structure": lambda sess, ctx, opts: unit_structure(sess, ctx),
